@@ -3,6 +3,7 @@ import ast
 import os
 import importlib
 
+from ..common import safe_repr
 from .. import encode, model, runner, sexp
 from ..common import d42  # noqa: F401
 from d42.migration.migrate_v1_to_v2 import mapping, rewrite_imports
@@ -224,7 +225,7 @@ def file_level(ctx):
             with contextlib.redirect_stdout(buf):
                 migrate_v1_to_v2(root)
         except Exception as e:  # noqa: BLE001
-            ctx.violation("migrate_v1_to_v2 raised " + type(e).__name__, exception=repr(e))
+            ctx.violation("migrate_v1_to_v2 raised " + type(e).__name__, exception=safe_repr(e))
         # the command-line entry point (d42/_main.py: `d42 v1-to-v2 <dir>`) on a second copy must leave the same bytes
         import subprocess
         import sys
@@ -332,7 +333,7 @@ def run(ctx):
                 if not hasattr(m, new_name):
                     ctx.violation("a migration target is not importable", old=f"{old_mod}.{n}", new=f"{new_mod}.{new_name}")
             except Exception as e:  # noqa: BLE001
-                ctx.violation("a migration target module cannot be imported", new=new_mod, exception=repr(e))
+                ctx.violation("a migration target module cannot be imported", new=new_mod, exception=safe_repr(e))
             if new_name != n:
                 ctx.violation("a mapped name changes (the import would bind a different local name)", old=n, new=new_name)
     reqs, exp, info = [], [], []
@@ -355,7 +356,7 @@ def run(ctx):
         try:
             out = rewrite_imports(src, mapping)
         except Exception as e:  # noqa: BLE001
-            ctx.violation("rewrite_imports raised " + type(e).__name__, source=src, exception=repr(e))
+            ctx.violation("rewrite_imports raised " + type(e).__name__, source=src, exception=safe_repr(e))
             continue
         has_abs_from = any(isinstance(nd, ast.ImportFrom) and nd.level == 0 for nd in before.body)
         if out is None:
@@ -380,7 +381,7 @@ def run(ctx):
                 # binding order matters only per local name; compare as ordered lists of (local -> target) per name
                 if sorted(want) != sorted(got):
                     ctx.violation("imports after the rewrite do not bind the same local names to the v2 counterparts",
-                                  source=src, output=out, expected=repr(sorted(want)), got=repr(sorted(got)))
+                                  source=src, output=out, expected=safe_repr(sorted(want)), got=safe_repr(sorted(got)))
         try:
             ctx.count("splice_hypothesis_RepsOK_" + str(reps_ok(src)).lower())
         except Exception:  # noqa: BLE001
